@@ -6,6 +6,7 @@ import (
 	"fmt"
 	"math"
 	"os"
+	"sync/atomic"
 
 	"github.com/sahandsafizadeh/qeep/component/layers"
 	"github.com/sahandsafizadeh/qeep/component/layers/activations"
@@ -283,6 +284,38 @@ func derivedFrom(t *ref.T, h uint64) (tensor.Tensor, error) {
 			return nil, err
 		}
 		return id.MatMul(src)
+	case 2: // an untracked tensor on which BackPropagate was already called (it changes nothing: "from an untracked root it changes nothing")
+		src, err := directLeaf(t, false)
+		if err != nil {
+			return nil, err
+		}
+		_ = tensor.BackPropagate(src)
+		return src, nil
+	case 3: // a constant with a HISTORY: it already was a direct operand (ElMax / Concat / Patch) of a graph that was back-propagated
+		src, err := directLeaf(t, false)
+		if err != nil {
+			return nil, err
+		}
+		tmp, err := tensor.Zeros(ref.CopyInts(t.Shape), Conf(true))
+		if err != nil {
+			return src, nil
+		}
+		var y tensor.Tensor
+		switch (h >> 44) % 3 {
+		case 0:
+			y, err = tmp.ElMax(src)
+		case 1:
+			y, err = tensor.Concat([]tensor.Tensor{src, tmp}, 0)
+		default:
+			y, err = tmp.Patch(nil, src)
+			if err == nil {
+				y, err = y.Add(tmp)
+			}
+		}
+		if err == nil && y != nil {
+			_ = tensor.BackPropagate(y)
+		}
+		return src, nil
 	case 5: // the result of an element-wise operation that changes nothing: Scale(1)
 		src, err := directLeaf(t, false)
 		if err != nil {
@@ -315,7 +348,47 @@ func derivedFrom(t *ref.T, h uint64) (tensor.Tensor, error) {
 	return nil, nil
 }
 
-func directLeaf(t *ref.T, tracked bool) (tensor.Tensor, error) {
+// NoSharedConf is set by workloads that create tensors from several goroutines: the reused configuration object below is
+// caller-owned mutable state and must then not be shared.
+var NoSharedConf atomic.Bool
+
+var (
+	sharedConf  = &tensor.Config{Device: tensor.CPU}
+	sharedCalls uint64
+)
+
+// confNow returns the configuration for a creation call made right now: two times in three ONE long-lived Config object whose
+// fields the caller sets before each call (a program that keeps one Config and flips GradTrack between creations);
+// release() overwrites it after the call, as a caller may.
+func confNow(tracked bool) (*tensor.Config, func()) {
+	if NoSharedConf.Load() {
+		return Conf(tracked), func() {}
+	}
+	sharedCalls++
+	if sharedCalls%3 == 0 {
+		return Conf(tracked), func() {}
+	}
+	sharedConf.Device, sharedConf.GradTrack = tensor.CPU, tracked
+	return sharedConf, func() { sharedConf.GradTrack = !tracked }
+}
+
+func directLeaf(t *ref.T, tracked bool) (x tensor.Tensor, err error) {
+	if len(t.Shape) <= 4 {
+		conf, release := confNow(tracked)
+		defer release()
+		switch len(t.Shape) {
+		case 0:
+			return tensor.TensorOf(Nested(t).(float64), conf)
+		case 1:
+			return tensor.TensorOf(Nested(t).([]float64), conf)
+		case 2:
+			return tensor.TensorOf(Nested(t).([][]float64), conf)
+		case 3:
+			return tensor.TensorOf(Nested(t).([][][]float64), conf)
+		default:
+			return tensor.TensorOf(Nested(t).([][][][]float64), conf)
+		}
+	}
 	switch len(t.Shape) {
 	case 0:
 		return tensor.TensorOf(Nested(t).(float64), Conf(tracked))
